@@ -449,7 +449,6 @@ class HamiltonianChain(MarkovChain):
             start=None,
             grad=grad,
             bounds=bounds,
-            inverse_mass=array(D["inv_mass"]),
             temperature=1.0 / float(D["inv_temp"]),
             display_progress=bool(D["display_progress"]),
         )
@@ -460,6 +459,13 @@ class HamiltonianChain(MarkovChain):
         chain.n_parameters = int(D["n_parameters"])
         chain.chain_length = int(D["chain_length"])
         chain.steps = int(D["steps"])
+
+        # re-build the particle mass (a scalar inverse-mass is stored as a 0-d array)
+        inv_mass = D["inv_mass"]
+        chain.mass = get_particle_mass(
+            inverse_mass=float(inv_mass) if inv_mass.ndim == 0 else inv_mass,
+            n_parameters=chain.n_parameters,
+        )
 
         t = D["theta"]
         chain.theta = [t[i, :] for i in range(t.shape[0])]
